@@ -116,6 +116,94 @@ proof fn lemma_be64_roundtrip(v: int)
 }
 //@include inc/attrs_gen.rs
 
+
+// ---------------------------------------------------------------- FINGERPRINT (RFC 8489 14.7)
+pub uninterp spec fn crc32_iso_hdlc(data: Seq<u8>) -> u32;
+// crc::Crc::<u32>::new(&crc::CRC_32_ISO_HDLC).checksum(data)  (third-party crate `crc`)
+#[verifier::external_body]
+pub fn vx_crc32(data: &[u8]) -> (r: u32) ensures r == crc32_iso_hdlc(data@) { unimplemented!() }
+//@consts stun_rs :: mod attributes > mod stun > mod fingerprint
+//@item! stun_rs :: mod attributes > mod stun > mod fingerprint > struct EncodableFingerprint
+//@item! stun_rs :: mod attributes > mod stun > mod fingerprint > struct DecodableFingerprint
+//@item! stun_rs :: mod attributes > mod stun > mod fingerprint > enum Fingerprint
+impl StunAttributeType for Fingerprint {
+    open spec fn spec_type() -> u16 { 0x8028 }
+//@item stun_rs :: mod attributes > mod stun > mod fingerprint > impl crate::attributes::StunAttributeType for Fingerprint > fn get_type
+//@tags C02 C10
+//@end
+//@item stun_rs :: mod attributes > mod stun > mod fingerprint > impl crate::attributes::StunAttributeType for Fingerprint > fn attribute_type
+//@tags C02 C10
+//@end
+}
+impl DecodableFingerprint {
+//@item stun_rs :: mod attributes > mod stun > mod fingerprint > impl DecodableFingerprint > fn validate
+//@tags C10
+//@sub "crc::Crc::<u32>::new(&crc::CRC_32_ISO_HDLC).checksum(input)" => "vx_crc32(input)"
+//@spec
+    ensures r == (self.0 == crc32_iso_hdlc(input@)),
+//@end
+}
+impl Decode<'_> for DecodableFingerprint {
+//@item stun_rs :: mod attributes > mod stun > mod fingerprint > impl crate::Decode<'_> for DecodableFingerprint > fn decode
+//@tags C10 C02
+//@spec
+    ensures r is Ok <==> buffer@.len() >= 4,
+        // the stored value is the wire value XOR 0x5354554e ("STUN")
+        r is Ok ==> r->Ok_0.1 == 4 && r->Ok_0.0.0 == (be32(buffer@.subrange(0, 4)) as u32) ^ 0x5354_554eu32,
+//@end
+}
+impl Fingerprint {
+//@item stun_rs :: mod attributes > mod stun > mod fingerprint > impl Fingerprint > fn validate
+//@tags C10
+//@spec
+    ensures r == (self is Decodable && self->Decodable_0.0 == crc32_iso_hdlc(input@)),
+//@end
+    // EncodeAttributeValue::post_encode (overrides the default): the CRC of everything before the attribute, with the
+    // header length already covering it (MessageEncoder::encode writes the length first), XOR 0x5354554e, big-endian
+//@item stun_rs :: mod attributes > mod stun > mod fingerprint > impl EncodeAttributeValue for Fingerprint > fn post_encode
+//@tags C10 C02
+//@rules R5P
+//@sub "crc::Crc::<u32>::new(&crc::CRC_32_ISO_HDLC).checksum(ctx.encoded_message())" => "vx_crc32(ctx.encoded_message())"
+//@spec
+    ensures final(ctx.raw_value)@.len() == old(ctx.raw_value)@.len(),
+        r is Ok <==> self is Encodable && old(ctx.raw_value)@.len() >= 4,
+        r is Ok ==> final(ctx.raw_value)@.subrange(0, 4) == be32_seq((crc32_iso_hdlc(ctx.encoded_msg@) ^ 0x5354_554eu32) as int)
+            && (forall|i: int| 4 <= i < old(ctx.raw_value)@.len() ==> final(ctx.raw_value)@[i] == old(ctx.raw_value)@[i]),
+//@end
+}
+impl EncodeAttributeValue for Fingerprint {
+    open spec fn wire(&self, enc: Seq<u8>) -> Seq<u8> { seq![0u8, 0u8, 0u8, 0u8] }   // placeholder until post_encode
+    open spec fn encodable(&self, enc: Seq<u8>) -> bool { self is Encodable }
+//@item stun_rs :: mod attributes > mod stun > mod fingerprint > impl EncodeAttributeValue for Fingerprint > fn encode
+//@tags C10 C01 C14
+//@rules R5P R16
+//@stmt "Ok(FINGERPRINT_SIZE)"
+    proof { assert(raw_value@.subrange(0, 4) =~= seq![0u8, 0u8, 0u8, 0u8]); }
+//@end
+}
+impl DecodeAttributeValue for Fingerprint {
+    open spec fn unwire(raw: Seq<u8>, prefix: Seq<u8>) -> Option<Self> {
+        if raw.len() >= 4 { Some(Fingerprint::Decodable(DecodableFingerprint((be32(raw.subrange(0, 4)) as u32) ^ 0x5354_554eu32))) } else { None }
+    }
+//@item stun_rs :: mod attributes > mod stun > mod fingerprint > impl DecodeAttributeValue for Fingerprint > fn decode
+//@tags C10 C01 C03
+//@end
+}
+// C10: the encoder's own output validates: decoding what post_encode wrote and validating against the same text
+// props: C10
+proof fn lemma_c10_own_valid(enc: Seq<u8>)
+    ensures ({
+        let written = be32_seq((crc32_iso_hdlc(enc) ^ 0x5354_554eu32) as int);
+        let d = Fingerprint::unwire(written, enc)->Some_0;
+        d is Decodable && d->Decodable_0.0 == crc32_iso_hdlc(enc)
+    }),
+{
+    let c = crc32_iso_hdlc(enc);
+    let x = c ^ 0x5354_554eu32;
+    lemma_be32_roundtrip(x as int);
+    assert(be32_seq(x as int).subrange(0, 4) =~= be32_seq(x as int));
+    assert((c ^ 0x5354_554eu32) ^ 0x5354_554eu32 == c) by (bit_vector);
+}
 proof fn vx_sentinel() ensures false {}
 } // verus!
 fn main() {}
